@@ -72,6 +72,9 @@ class DiscStorage:
         self._lookup_path(name).unlink()
 
 
+external_name = re.compile(r"([0-9a-fA-F]*)\*?(\.[a-zA-Z0-9]*)")
+
+
 class external:
     def __init__(self, name: str):
         """External objects are used as a representation for outsourced data.
@@ -86,7 +89,7 @@ class external:
             name: the name of the external stored object.
         """
 
-        m = re.fullmatch(r"([0-9a-fA-F]*)\*?(\.[a-zA-Z0-9]*)", name)
+        m = external_name.fullmatch(name)
 
         if m:
             self._hash, self._suffix = m.groups()
